@@ -652,7 +652,7 @@ class WorldGen:
     def op_copy(self, k, t, i, st):
         r = self.rng
         j = self.any_vec()
-        w = r.choice(("vecsim.pickle_rt", "copy.copy", "copy.deepcopy", "vecsim.pickle_dumps"))
+        w = r.choice(("vecsim.pickle_rt", "copy.copy", "copy.deepcopy"))
         return {"f": w, "a": [P(j)]}
 
     def op_construct(self, k, t, i, st):
